@@ -146,6 +146,7 @@ def precedence_tables(ctx, R1, only=None):
 def check(ctx):
     prog = ctx.prog
     R1 = ctx.rule("R1", "precedence certificate > endpoint > global > default for renew_delay, random_early_renew, file_name_format; certificate > global > default for the directory (decision tables)")
+    absent_is_unset_rule(ctx, R1)
     if not precedence_tables(ctx, R1):
         _dir_table(ctx, R1)
     _endpoint_wiring(ctx, R1)
@@ -473,6 +474,29 @@ def merge_pairing(ctx, rid, only=None):
             wrong = srcs - {f}
             ctx.require(rid, not wrong, where(rc, bb), "global.%s is assigned from the same-named option (found %s)" % (f, sorted(srcs)), ["config::read_cnf", "merge-crosswired", f])
     include_rule(ctx, rid, only)
+
+
+def absent_is_unset_rule(ctx, rid):
+    """the precedence chain and the include merge both rely on `key absent in this table` = `option not set here`: the derived
+    Deserialize of the three option-carrying tables fills an Option field from the input or with None, never from a default function
+    (`#[serde(default = "..")]` would make every parsed table `set` the option: a later [global] without the key resets it, a
+    certificate without the key hides the endpoint's value)"""
+    prog = ctx.prog
+    n = 0
+    for adt in (G, E, C):
+        short_ = adt.rsplit("::", 1)[1]
+        for k, b in prog.bodies.items():
+            if ("for %s>::deserialize::__Visitor" % adt) in k and k.endswith("::visit_map"):
+                n += 1
+                foreign = sorted({(c.name or "") for c in b.calls if c.bb in b.live_blocks() and (c.name or "").startswith(("acmed::", "<acmed::")) and short_ not in (c.name or "")
+                                  and "deserialize" not in (c.name or "").lower() and "Visitor" not in (c.name or "")})
+                # default providers for NON-Option fields are fine (`env: HashMap` uses Default); a provider whose result is an Option is not
+                bad = []
+                for c in b.calls:
+                    if c.bb in b.live_blocks() and (c.name or "") in foreign and c.dest is not None and b.local_ty(c.dest["l"]).startswith("core::option::Option<"):
+                        bad.append(c.name)
+                ctx.require(rid, not bad, "%s:%s" % (b.file, b.line), "%s: an option missing from the table deserialises to None (default functions found: %s)" % (short_, sorted(set(bad))), [adt, "absent-is-unset"])
+    ctx.floor(rid, "derived visit_map of the option-carrying configuration tables", n, 3)
 
 
 def include_rule(ctx, rid, only=None):
